@@ -135,6 +135,15 @@ func init() {
 			}
 			return nil
 		},
+		"vsymStepBound": func(m *Machine, _ *frame, _ *ssa.Function, a []value) value {
+			n := int64(m.path.Concretise(a[0].(*Term), "step-bound"))
+			if n <= 0 {
+				m.stepBound = 0
+			} else {
+				m.stepBound = m.steps + n
+			}
+			return nil
+		},
 		"vsymFmtOpaque": func(m *Machine, _ *frame, _ *ssa.Function, a []value) value {
 			m.fmtOpaque = a[0].(*Term).K != 0
 			return nil
